@@ -22,15 +22,16 @@ The combined model `Obj/TreeProps.lean` (objects with declared properties, C16 x
 line format of drv_c17 (classes most derived first):
 
   preset                                       -> ok
+  pworld <c>                                   start declaring the class chain with id c           -> ok
   pclass | piface <name> (<pname> <sig> <r> <w> <e>)* | pdesc <attr> <pname> <iface|~> | pbind
-                                               -> ok | typeerror | declerr
-  pobj <n> <path>                              the instance n was constructed with this path     -> ok
+                                               -> ok | typeerror | declerr     (pbind: elaborate chain c)
+  pobj <n> <c> <path>                          instance n of chain c was constructed with this path -> ok
   pexport <n>                                  -> added <hdr> <arg> <objdict> | raised
   punexport <path>                             -> removed <hdr> <arg> <ifaces> | raised
   passign <n> <attr> <val>                     -> ok | raised
   pset <path> <iface> <pname> <val>            -> ret | err | unknown
   pmanaged <path>                              -> managed <path>:<objdict>;… | unknown | failed
-  <objdict> = <iface>=<props>,…   <props> = <pname>~<sig>~<val>|… or "[]"     values: N, I<int>, B0, B1, S<hex>
+  <objdict> = <iface>=<props>,…   <props> = <pname>~<sig>~<val>|… or "[]"     values: N, I<int>, B0, B1, S<hex>, D<bits>, L:<hex>,…, W<c>I<int>, W<c>S<hex>
 -/
 open Txdbus.Obj Txdbus.Obj.Tree Driver
 
@@ -112,10 +113,11 @@ def step (e : Exports) (line : String) : Exports × String :=
 /-! ### the combined model -/
 
 structure PS where
-  classes : List ClassDef := []      -- reversed: current class is the head
+  cur : Nat := 0
+  classes : List ClassDef := []      -- of the chain being declared; reversed: current class is the head
   bad : Bool := false
-  world : Option World := none
-  paths : List (Nat × Str) := []
+  worlds : List (Nat × World) := []
+  objs : List (Nat × Nat × Str) := []          -- instance, chain id, path
   st : TreeProps.State := TreeProps.State.init
 
 def parseInt? (s : String) : Option Int :=
@@ -129,7 +131,13 @@ def parseVal? (s : String) : Option PVal :=
   | ['B', '0'] => some (.bool false)
   | ['B', '1'] => some (.bool true)
   | 'I' :: t => (parseInt? (String.ofList t)).map .int
+  | 'D' :: t => (String.ofList t).toNat?.map .dbl
   | 'S' :: t => (hexToChars? (String.ofList t)).map .str
+  | 'L' :: ':' :: t =>
+    if t.isEmpty then some (.strs [])
+    else (((String.ofList t).splitOn ",").mapM hexToChars?).map .strs
+  | 'W' :: c :: 'I' :: t => (parseInt? (String.ofList t)).map (.wint c)
+  | 'W' :: c :: 'S' :: t => (hexToChars? (String.ofList t)).map (.wstr c)
   | _ => none
 
 def showInt (n : Int) : String := if n < 0 then "-" ++ toString n.natAbs else toString n.natAbs
@@ -139,6 +147,10 @@ def showVal : PVal → String
   | .int n => "I" ++ showInt n
   | .bool b => if b then "B1" else "B0"
   | .str s => "S" ++ charsToHex s
+  | .dbl b => "D" ++ toString b
+  | .strs l => "L:" ++ ",".intercalate (l.map charsToHex)
+  | .wint c n => "W" ++ String.singleton c ++ "I" ++ showInt n
+  | .wstr c s => "W" ++ String.singleton c ++ "S" ++ charsToHex s
   | _ => "?"
 
 def parseProps : List String → Option (List RawProp)
@@ -167,8 +179,11 @@ def showPSignal : TreeProps.Signal → String
   | .interfacesRemoved h a ifs => s!"removed {charsToHex h} {charsToHex a} {strs ifs}"
 
 def env? (d : PS) : Option TreeProps.Env :=
-  d.world.map fun W =>
-    { cfg := Cfg.repaired, W := W, pathOf := fun n => ((d.paths.find? fun e => e.1 == n).map (·.2)).getD [] }
+  if d.worlds.isEmpty then none else
+  some { cfg := Cfg.repaired
+         W := fun c => ((d.worlds.find? fun e => e.1 == c).map (·.2)).getD ⟨[], [], []⟩
+         cls := fun n => ((d.objs.find? fun e => e.1 == n).map (·.2.1)).getD 0
+         pathOf := fun n => ((d.objs.find? fun e => e.1 == n).map (·.2.2)).getD [] }
 
 def pstep (d : PS) (op : TreeProps.Op) (showOuts : List Txdbus.Obj.Props.Out → String) : PS × String :=
   match env? d with
@@ -190,6 +205,10 @@ def setOuts (l : List Txdbus.Obj.Props.Out) : String :=
 def pline (d : PS) (ws : List String) : PS × String :=
   match ws with
   | ["preset"] => ({}, "ok")
+  | ["pworld", c] =>
+    match c.toNat? with
+    | some c => ({ d with cur := c, classes := [], bad := false }, "ok")
+    | none => (d, "badinput")
   | ["pclass"] => ({ d with classes := ⟨[], []⟩ :: d.classes }, "ok")
   | "piface" :: name :: rest =>
     match d.classes, hexToChars? name, parseProps rest with
@@ -209,12 +228,12 @@ def pline (d : PS) (ws : List String) : PS × String :=
   | ["pbind"] =>
     if d.bad then (d, "declerr") else
     match Txdbus.Obj.Props.elaborate d.classes.reverse with
-    | some W => ({ d with world := some W, st := TreeProps.State.init }, "ok")
+    | some W => ({ d with worlds := (d.cur, W) :: d.worlds }, "ok")
     | none => (d, "declerr")
-  | ["pobj", n, p] =>
-    match n.toNat?, hexToChars? p with
-    | some n, some p => ({ d with paths := (n, p) :: d.paths }, "ok")
-    | _, _ => (d, "badinput")
+  | ["pobj", n, c, p] =>
+    match n.toNat?, c.toNat?, hexToChars? p with
+    | some n, some c, some p => ({ d with objs := (n, c, p) :: d.objs }, "ok")
+    | _, _, _ => (d, "badinput")
   | ["pexport", n] =>
     match n.toNat? with
     | some n => pstep d (.export n) (fun _ => "?")
